@@ -45,11 +45,15 @@ func (v val) str(mask bool) string {
 var t0 = time.Unix(1_700_000_000, 0).UTC()
 var wt = t0.Add(-time.Hour) // the explicit write time
 
-// wtOf: the write time a write with WriteTime set is given: an hour before the clock's epoch, or - for the writes
+// wtOf: the write time a write with WriteTime set is given: an hour before the clock's epoch, a day after it (the
+// writes of text y), or - for the writes
 // of value 2 - the zero time.Time, which is a time like any other ("use t as the change time")
 func wtOf(w wop) time.Time {
 	if w.V.a == 2 {
 		return time.Time{}
+	}
+	if w.V.b == "y" {
+		return t0.Add(24 * time.Hour) // later than anything the resource's own clock says: a time like any other, too
 	}
 	return wt
 }
